@@ -382,6 +382,9 @@ static void read_single_byte(LHAPM2Decoder *decoder, unsigned int code,
 	int offset;
 	uint8_t b;
 
+#ifdef LHASA_VERIF
+	LHASA_VERIF_INDEX(history_decode, code);
+#endif
 	offset = decode_variable_length(&decoder->bit_stream_reader,
 	                                history_decode, code);
 
@@ -404,6 +407,9 @@ static int history_get_count(LHAPM2Decoder *decoder, unsigned int code)
 	if (code < 15) {
 		return (int) code + 2;
 	} else {
+#ifdef LHASA_VERIF
+		LHASA_VERIF_INDEX(copy_decode, code - 15);
+#endif
 		return decode_variable_length(&decoder->bit_stream_reader,
 		                              copy_decode, code - 15);
 	}
